@@ -206,7 +206,7 @@ impl TypeRt<'_> {
                     self.stack.push(a);
                     self.stack.push(b);
                 }
-                Not | Sign | Neg | Abs | Sqrt | Floor | Ceil | Round => {
+                Not | Sign | Neg | Abs | Sqrt | Floor | Ceil | Round | Reciprocal => {
                     let x = self.pop()?;
                     self.stack.push(x);
                 }
@@ -214,6 +214,12 @@ impl TypeRt<'_> {
                 Reverse | Sort => {
                     let x = self.pop()?;
                     self.stack.push(x);
+                }
+                // The indices that would sort the rows
+                Rise | Fall => {
+                    let x = self.pop()?;
+                    let shape: crate::Shape = x.shape.iter().take(1).copied().collect();
+                    self.stack.push(Ty::new(ScalarType::Real, shape));
                 }
                 Add | Sub | Mul | Div | Pow | Modulo => {
                     let a = self.pop()?;
@@ -364,6 +370,12 @@ impl TypeRt<'_> {
                 ImplPrimitive::SortDown => {
                     let x = self.pop()?;
                     self.stack.push(x);
+                }
+                // The fused forms of pervasive functions of one argument
+                // that give what they get, see the primitives
+                ImplPrimitive::SquareAbs | ImplPrimitive::NegAbs => {
+                    let x = self.pop()?;
+                    self.stack.push(Ty::new(x.scalar, x.shape));
                 }
                 ImplPrimitive::FirstSort | ImplPrimitive::LastSort => {
                     let mut x = self.pop()?;
